@@ -20,6 +20,8 @@ pub struct GraphParams {
     pub c03: bool,
     /// allow a load-path url from an importer in a sub-directory
     pub subdir_loadpath: bool,
+    /// file j is loaded by file j-1: one long chain of nested loads instead of a bushy tree
+    pub chain: bool,
 }
 
 pub const ALL_KINDS: [LoadKind; 4] =
@@ -60,6 +62,7 @@ impl GraphParams {
             density_q: rng.range(0, 6),
             c03: false,
             subdir_loadpath: rng.chance(1, 8),
+            chain: false,
         }
     }
     pub const STRATA: u64 = 5 * 15 * 2 * 2;
@@ -191,7 +194,7 @@ pub fn gen_graph(p: &GraphParams, rng: &mut Rng) -> GraphSpec {
     let n = p.nfiles;
     let mut edges: Vec<Vec<(usize, LoadKind)>> = vec![vec![]; n];
     for j in 1..n {
-        let parent = rng.usize(j);
+        let parent = if p.chain { j - 1 } else { rng.usize(j) };
         edges[parent].push((j, *rng.pick(&p.kinds)));
     }
     for i in 0..n {
